@@ -483,6 +483,20 @@ fn c08_session(ctx: &Ctx, idx: usize, seeds: &[String]) {
         if g.moves.len() > 800 {
             out::count("C08.commands_longer_than_800_plies", 1);
         }
+        // a GUI may also describe the same game from a later point: FEN of the position after k
+        // plies (with its true clocks) followed by the remaining moves
+        let g = if g.moves.len() >= 2 && rng.chance(1, 4) {
+            let k = 1 + rng.below(g.moves.len() as u64 - 1) as usize;
+            out::count("C08.commands_rooted_at_a_midgame_fen", 1);
+            Game {
+                start_fen: g.positions[k].fen(),
+                is_startpos: false,
+                moves: g.moves[k..].to_vec(),
+                positions: g.positions[k..].to_vec(),
+            }
+        } else {
+            g
+        };
         let corrupt = rng.chance(2, 5) && g.moves.len() < 400;
         if !corrupt {
             prev_game = Some(g.clone());
@@ -670,7 +684,7 @@ fn random_limits(rng: &mut Rng) -> Limits {
     let pick = |rng: &mut Rng, v: &[u64]| Some(*rng.pick(v));
     match rng.below(12) {
         0 => l.depth = Some(1 + rng.below(4)),
-        1 => l.nodes = pick(rng, &[1, 2, 3, 5, 10, 20, 50, 100, 300, 1000, 5000, 20000, 50000]),
+        1 => l.nodes = pick(rng, &[1, 2, 3, 5, 10, 20, 50, 100, 300, 1000, 5000, 20000, 50000, 200_000, 1_000_000, 3_000_000]),
         2 => l.movetime = pick(rng, &[0, 1, 2, 5, 10, 20, 50, 100, 300]),
         3 => {
             // clocks in every mix, including only the opponent's
@@ -741,6 +755,10 @@ pub struct GoOutcome {
     pub stderr: Vec<String>,
     pub alive: bool,
     pub stop_sent: bool,
+    /// a count-limited search was still running when the watchdog fired and had to be stopped
+    pub watchdog_stop: bool,
+    /// ... and at that moment the engine was using no CPU at all
+    pub idle_without_answer: bool,
 }
 
 /// Sends `go`, waits for the answer according to the limits, observes the settle window.
@@ -758,6 +776,18 @@ pub fn do_go(e: &mut Engine, l: &Limits, stm: u8) -> GoOutcome {
         (None, false) => 300,
     };
     let mut idx = e.wait_out_unless_panic(first_wait, "bestmove", from);
+    let mut watchdog_stop = false;
+    let mut idle_without_answer = false;
+    if idx.is_none() && bound.is_none() && l.has_count_limit() && e.is_alive() && !e.log[from..].iter().any(|x| x.src == Src::Err && x.line.contains("panicked at")) {
+        // a depth / node limit does not bound the time; the watchdog has fired, which decides
+        // nothing by itself. But an engine that is neither computing nor answering has nothing
+        // left to wait for: that is a missing answer, not a long search
+        idle_without_answer = e.is_idle_for(500).unwrap_or(false) && e.count_out(from, "bestmove") == 0;
+        // ask the search to stop: an answer now means it was simply still busy (or idly waiting)
+        e.send("stop");
+        watchdog_stop = true;
+        idx = e.wait_out_unless_panic(ALLOWANCE_MS + 3_000, "bestmove", from);
+    }
     if idx.is_none() && bound.is_none() && !l.has_count_limit() {
         // nothing bounds this search: a conformant GUI ends it with stop
         e.send("stop");
@@ -785,6 +815,8 @@ pub fn do_go(e: &mut Engine, l: &Limits, stm: u8) -> GoOutcome {
         stderr: e.stderr_lines(from),
         alive: e.is_alive(),
         stop_sent,
+        watchdog_stop,
+        idle_without_answer,
     }
 }
 
@@ -821,6 +853,31 @@ fn go_session(ctx: &Ctx, idx: usize, seeds: &[String], prop: &str) {
             g = start;
         }
     }
+    let tiny_tree = prop == "C09" && idx % 8 == 7;
+    if tiny_tree {
+        // positions whose whole tree is tiny (the search runs out of depth, not out of budget)
+        let tiny = [
+            "8/8/8/3k4/8/3K4/8/8 w - - 0 1",
+            "8/8/8/3k4/8/3K4/8/8 b - - 0 1",
+            "6k1/5ppp/8/8/8/8/8/R5K1 w - - 0 1",
+            "6k1/8/8/8/8/8/5PPP/r5K1 w - - 0 1",
+            "7k/5Q2/6K1/8/8/8/8/8 w - - 0 1",
+            "k7/8/1K6/8/8/8/8/7R w - - 0 1",
+            "8/8/8/8/8/5k2/4p3/4K3 w - - 0 1",
+            "k7/P7/K7/8/8/8/8/8 b - - 0 1",
+            "8/8/8/8/8/8/6k1/4K2R b K - 0 1",
+        ];
+        let fen = (*rng.pick(&tiny)).to_string();
+        g = Game {
+            start_fen: fen.clone(),
+            is_startpos: false,
+            moves: vec![],
+            positions: vec![Pos::from_fen(&fen).unwrap()],
+        };
+        if g.last().legal_moves().is_empty() {
+            return;
+        }
+    }
     e.send(&g.command());
     if prop == "C14" && idx % 5 == 4 {
         c14_isready_storm(ctx, idx, &mut e, &g, &mut rng);
@@ -842,6 +899,19 @@ fn go_session(ctx: &Ctx, idx: usize, seeds: &[String], prop: &str) {
                 _ => l.movetime = Some(*rng.pick(&[20, 60, 150])),
             }
             l
+        } else if tiny_tree {
+            let mut l = Limits::default();
+            match rng.below(5) {
+                0 => l.nodes = Some(*rng.pick(&[200_000, 1_000_000, 3_000_000])),
+                1 => l.depth = Some(*rng.pick(&[30, 100, 250])),
+                2 => l.movetime = Some(*rng.pick(&[50, 300])),
+                3 => {
+                    l.nodes = Some(*rng.pick(&[200_000, 3_000_000]));
+                    l.depth = Some(200);
+                }
+                _ => l.infinite = true,
+            }
+            l
         } else if k == 0 && rng.chance(1, 2) {
             let mut l = Limits::default();
             match rng.below(3) {
@@ -853,6 +923,21 @@ fn go_session(ctx: &Ctx, idx: usize, seeds: &[String], prop: &str) {
         } else {
             random_limits(&mut rng)
         };
+        // where capture sequences explode (many queens) a depth or node limit bounds nothing that a
+        // test could wait for: only time-based limits are used there
+        let mut l = l;
+        let queens = p.sq.iter().filter(|&&x| oracle::kind(x) == oracle::Q).count();
+        if queens >= 8 && l.time_bound_ms(p.stm).is_none() && !l.infinite {
+            l = Limits::default();
+            match rng.below(3) {
+                0 => l.movetime = Some(*rng.pick(&[0, 5, 50, 100, 300])),
+                1 => {
+                    l.wtime = Some(*rng.pick(&[10, 100, 3000]));
+                    l.btime = Some(*rng.pick(&[10, 100, 3000]));
+                }
+                _ => l.infinite = true,
+            }
+        }
         let o = do_go(&mut e, &l, p.stm);
         let cmd = l.command();
         let ctxt = format!("'{}' then '{cmd}' (go #{} of the session)", g.command(), k + 1);
@@ -944,6 +1029,16 @@ fn c09_verdict(ctx: &Ctx, idx: usize, e: &mut Engine, o: &GoOutcome, l: &Limits,
         out::sample(format!("C09 {ctxt}: bestmove {:?} after {} ms, {} bestmove line(s)", o.bestmove, o.latency_ms, o.bestmove_lines));
     }
     let panic_line = o.stderr.iter().find(|s| s.contains("panicked")).cloned();
+    if o.idle_without_answer {
+        out::violation(
+            "C09",
+            "no-bestmove[idle]",
+            format!("no bestmove for {ctxt} after {} ms although the engine was idle (no CPU used for 500 ms): nothing is being searched and nothing was answered{}", o.latency_ms, if o.bestmove.is_some() { "; a bestmove came only after stop" } else { "" }),
+            replay_json("C09", idx, e),
+        );
+    } else if o.watchdog_stop && o.bestmove.is_some() {
+        out::inconclusive("C09 depth/node-limited search still running when the watchdog fired (answered after stop; the limits do not bound its time)", 1);
+    }
     match &o.bestmove {
         None => {
             let why = match &panic_line {
